@@ -784,6 +784,27 @@ def gen_sim(which: str):
             P = rng.choice([1, 1000, 10**8])
             wf = None
         times = gen_times(rng, P, wf, n, rng.choice([0, 0, P]))
+        if which == "rle" and case["policy"]["kind"] in ("fixed", "sliding") and rng.random() < 0.4:
+            # Several slots open at one instant (window rollover / entries expiring together) while >= 2 requests
+            # queue, and newcomers land 1-4 ns after that instant.
+            pk = case["policy"]["kind"]
+            N = rng.choice([2, 3, 5])
+            case["policy"]["params"]["n"] = N
+            qc = case["queue_capacity"] = rng.choice([2, 3, 4, 5])
+            q = rng.randrange(2, qc + 1)
+            base = rng.randrange(0, 4) * P
+            if pk == "fixed":
+                lo = rng.choice([1, P // 10, P // 2])
+                pre = sorted(base + min(P - 2, lo + i * rng.choice([0, 1, 7, max(1, P // 100)])) for i in range(N + q))
+                T = base + P
+            else:
+                t0 = base + rng.randrange(0, P)
+                pre = sorted(t0 + rng.choice([0, 0, 0, 1, 2]) for _ in range(N))
+                pre += sorted(pre[-1] + rng.randrange(1, 12) for _ in range(q))
+                T = pre[0] + P  # the closed window reopens at T + 1 ns
+            new = sorted(T + rng.choice([1, 1, 2, 2, 3, 4]) for _ in range(rng.choice([1, 2, 3])))
+            tail = [new[-1] + (t - times[0]) for t in times[: rng.choice([0, 3, 10])]]
+            times = pre + new + tail
         if which == "dist":
             case["arrivals"] = [[t, rng.randrange(2)] for t in times]
         else:
@@ -794,7 +815,7 @@ def gen_sim(which: str):
     return gen
 
 
-def _wrap(limiter, log, poll_prefix):
+def _wrap(limiter, log, poll_prefix, probe_free=None):
     """Client-boundary log: public stats before/after each delivery to the limiter."""
     orig = limiter.handle_event
     has_stats = hasattr(limiter, "stats") and hasattr(limiter, "queue_depth")
@@ -820,6 +841,8 @@ def _wrap(limiter, log, poll_prefix):
                 "before": before,
                 "after": after,
                 "outs": outs,
+                # backlog and, on a clone of the policy, a free slot right after this delivery
+                "idle_capacity": bool(probe_free is not None and after is not None and after[4] > 0 and probe_free(event.time.nanoseconds)),
             }
         )
         return out
@@ -858,7 +881,8 @@ def run_sim(case: dict) -> Result:
         poll_prefix = "\0"
     comp = type(lim).__name__
     log: list[dict] = []
-    _wrap(lim, log, poll_prefix)
+    probe_free = (lambda t_ns: _clone(lim.policy).try_acquire(Instant(t_ns))) if which == "rle" else None
+    _wrap(lim, log, poll_prefix, probe_free)
     last = arrivals[-1] if arrivals else 0
     qc = case.get("queue_capacity", 0)
     # Inductor: the truncated poll delay lands 1 ns short of the smoothed interval, so only every
@@ -911,9 +935,21 @@ def run_sim(case: dict) -> Result:
     arrival_order: list[int] = []
     queue_before: dict[int, int] = {}
     expect_forward: list[int] = []  # rids in the order the limiter emitted forwards
+    pending_poll: int | None = None  # instant of the drain poll the limiter has emitted and not yet received
+    poll_at_arrival: dict[int, int | None] = {}
+    idle_at_end: dict[int, bool] = {}  # instant -> requests queued AND the policy had a free slot when the instant ended
     for rec in log:
         b, a = rec["before"], rec["after"]
         fwd_outs = [o for o in rec["outs"] if not o[3]]
+        if rec["poll"]:
+            pending_poll = None
+        elif rec["rid"] is not None and rec["rid"] not in poll_at_arrival:
+            poll_at_arrival[rec["rid"]] = pending_poll
+        for o in rec["outs"]:
+            if o[3]:
+                pending_poll = o[1]
+        # end-of-instant view: the last record of each instant decides
+        idle_at_end[rec["t"]] = rec["idle_capacity"]
         if rec["poll"]:
             res.count("polls_seen")
             if b is not None:
@@ -1010,22 +1046,36 @@ def run_sim(case: dict) -> Result:
     # ---- order
     rank = {r: i for i, r in enumerate(arrival_order)}
     prev = None
+    shapes_seen: set = set()
     for r in got:
         if prev is not None and rank.get(r, -1) < rank.get(prev, -1):
             # r arrived earlier than prev but was forwarded later => prev overtook r
             over = prev
+            pp = poll_at_arrival.get(over)
             if disposition.get(over) == "forwarded" and queue_before.get(over, 0) > 0:
-                shape = "arrival-admitted-while-queue-nonempty"
+                # Mechanism classes, measured from the log:
+                #  * the limiter ended an EARLIER instant with requests queued although its policy had a free slot
+                #    (clone probe), and the overtaker arrived after that: the drain left capacity unused across a
+                #    clock advance (RateLimitedEntity only; an Inductor has no policy to ask);
+                #  * otherwise capacity returned at the overtaker's own instant and it was delivered before the
+                #    drain poll (tie), or the limiter is an Inductor.
+                earlier = [t for t in idle_at_end if t < arrivals[over]]
+                if which == "rle" and earlier and idle_at_end[max(earlier)]:
+                    shape = "arrival-after-capacity-left-idle-while-queue-nonempty"
+                else:
+                    shape = "arrival-admitted-while-queue-nonempty"
             else:
                 shape = "other"
-            res.add(
-                "forward-order",
-                comp,
-                shape,
-                f"rid {over} (arrived {arrivals[over]}ns, {disposition.get(over)}, queue depth before = {queue_before.get(over)}) forwarded before rid {r} (arrived {arrivals[r]}ns, {disposition.get(r)})",
-                {"overtaker": over, "overtaken": r},
-            )
-            break
+            if shape not in shapes_seen:
+                shapes_seen.add(shape)
+                res.add(
+                    "forward-order",
+                    comp,
+                    shape,
+                    f"rid {over} (arrived {arrivals[over]}ns, {disposition.get(over)}, queue depth before = {queue_before.get(over)}, "
+                    f"pending drain poll at {pp}ns) forwarded before rid {r} (arrived {arrivals[r]}ns, {disposition.get(r)})",
+                    {"overtaker": over, "overtaken": r, "pending_poll_ns": pp},
+                )
         prev = r
     res.count("forwards_checked", len(got))
 
